@@ -89,6 +89,9 @@ def run(rep):
             "exhaustive": True,
             "trusted_base": TRUSTED,
         })
+    # the operators are tokens: tie the lexer model to the CURRENT lexer.go (look-ahead of <=, >=, !=, <>, <=>, || ...)
+    import lexcommon
+    lexcommon.lexer_premise(rep, broken, ())
     verif.report_broken(rep, broken, found)
     rep.assumptions = ["ClickHouse's reading of NOT ( as the function not(), and of minus-literal folding, follows the code and its goldens where the property text is silent (DESIGN.md §7)"]
 
